@@ -10,6 +10,12 @@ KF_TEXT = ("two schemas to which the same user-type object with an allOf rule wa
            "loader/compiler_all_of.go processNode is not atomic on a shared type")
 
 
+KF2_ID = "C12-type-object-used-while-roots-compile"
+KF2_TEXT = ("a type object that has an added type with an or rule, used directly (Check / Validate / ...) while roots that were given it compile for the first "
+            "time: the type object's own compile adds the unnamed types of its added types to its table (loader.AddUnnamedTypes -> schema.AddType) while a "
+            "root's compile reads that table (sortedTypeNames) - a data race on the map; results were equal in every run")
+
+
 def run(tier, argv):
     rep = vlib.Report(PROP, tier)
     work = vlib.Work(PROP)
@@ -59,7 +65,7 @@ def run(tier, argv):
     # 3. goroutine mixes under the race detector
     hr = vlib.build_harness(work, race=True, name="harness-race")
     calls = 0
-    for scenario in ("shared", "private", "sharedtypes", "sharedallof"):
+    for scenario in ("shared", "private", "sharedtypes", "sharedallof", "typeobject"):
         p = vlib.run_harness(hr, ["c12mix", "-scenario", scenario, "-rounds", "25" if quick else "400"], timeout=6000, env_extra={"GORACE": "halt_on_error=0 exitcode=66"})
         err = p.stderr.decode("utf-8", "replace")
         if p.returncode not in (0, 66):
@@ -80,8 +86,12 @@ def run(tier, argv):
         calls += sm["calls"]
         rep.notes.setdefault("mixes", []).append({"scenario": scenario, "calls": sm["calls"], "result_differences": sm["diffs"], "race_reports": races})
         if races or sm["diffs"]:
+            blocks = err.split("WARNING: DATA RACE")[1:]
             if scenario == "sharedallof" and KF_ID in kf:
                 rep.known(KF_ID, KF_TEXT)
+            elif scenario == "typeobject" and KF2_ID in kf and not sm["diffs"] and all("AddUnnamedTypes" in b for b in blocks):
+                # the recorded finding: every report is the type object's table written by its own compile and read by a root's
+                rep.known(KF2_ID, KF2_TEXT, len(blocks))
             else:
                 i = err.find("WARNING: DATA RACE")
                 bad.append({"what": "goroutine mix: %d race reports, %d result differences" % (races, sm["diffs"]), "scenario": scenario, "first_diff": sm.get("first_diff"),
